@@ -3,4 +3,4 @@ From QV Require Import Hashmap.Model.
 Require Extraction.
 Require Import ExtrOcamlBasic.
 Extraction Language OCaml.
-Extraction "../ocaml/gen/hashmap_model.ml" create put remove get count callback destroy_deallocate brehash find_slot qt_hash64 key_at val_at.
+Extraction "../ocaml/gen/hashmap_model.ml" create put remove get count callback destroy_deallocate brehash find_slot put_probe qt_hash64 key_at val_at.
